@@ -197,7 +197,7 @@ pub fn check_c08(ctx: &Ctx, sc: &SeqCase, st: &mut Stats) -> Result<(), Fail> {
 }
 
 fn big_strategy(small: &Profile) -> BoxedStrategy<SeqCase> {
-    (case::gencase(small), any::<u64>(), 9_000usize..16_000, proptest::collection::vec(case::bytes_entropy(), 1..4), any::<bool>(), any::<bool>(), 0usize..120)
+    (case::gencase(small), any::<u64>(), prop_oneof![5 => 9_000usize..16_000, 1 => 30_000usize..36_000], proptest::collection::vec(case::bytes_entropy(), 1..4), any::<bool>(), any::<bool>(), 0usize..120)
         .prop_map(|(mut base, seed, n, later, first_seeded, with_reset, small_n)| {
             base.entropy = Entropy::Seed(seed);
             base.prior_calls = 0;
@@ -232,7 +232,7 @@ pub fn run_c08(ctx: &Ctx) -> Outcome {
          proptest value and shrinks as one), for all protocols and configurations incl. mutators / unsafe / opt-in flags; the generator has a \
          PRNG seed. Model-based oracle: the result of every generation call equals the result of the same call on a fresh generator with equal \
          configuration. Also re-configuration of the opcode range through the public fields between calls; (b) histories that start with one \
-         pickle of 9 000..16 000 opcodes; (c) long-lived generators: 260..520 calls, and once per protocol 70 000 calls (300 000 thorough) of tiny \
+         pickle of 9 000..16 000 (one in six: 30 000..36 000) opcodes; (c) long-lived generators: 260..520 calls, and once per protocol 70 000 calls (300 000 thorough) of tiny \
          pickles, every call compared. Non-trivial = >= 2 generation calls without a reset in between.",
     );
     let mut p = Profile::full();
@@ -384,8 +384,8 @@ pub fn run_c14(ctx: &Ctx) -> Outcome {
          process the tool ships (CLI batch mode): the peak resident set (/usr/bin/time %M) of a 300-pickle and of a 6 000-pickle (24 000 thorough) \
          batch of 1500..2500-opcode pickles, two protocols and worker counts; oracle: the difference stays below half of the bytes the larger \
          batch wrote (>= 32 MiB), i.e. the process does not keep what it has generated; and for the Python front end (the Atheris mutator): \
-         8 000 (60 000 thorough) mutate() / generate_from_bytes() calls on distinct inputs in one process - Python-level allocations (tracemalloc) \
-         and the resident set must not grow by more than half of the bytes returned (+16 MiB for the resident set), and 200 mutator objects \
+         8 000 (60 000 thorough) mutate() / generate_from_bytes() calls on distinct inputs in one process - Python-level allocations (tracemalloc) must not \
+         grow by more than 256 KiB + 1/64 of the bytes returned, the resident set not by more than half of them + 16 MiB, and 200 mutator objects \
          used once and dropped must be collectable.",
     );
     let mut p = Profile::full();
